@@ -121,6 +121,8 @@ func TestVerifE5Replay(t *testing.T) {
 		vfE5ReplayExitAnswer(t, name)
 	case "topic_double_delete_unlinks_fresh":
 		vfE5ReplayDoubleDelete(t, name)
+	case "chan_double_delete_unlinks_fresh", "chan_double_delete_waits":
+		vfE5ReplayChanDoubleDelete(t, name)
 	case "topic_delete_races_sub", "topic_delete_races_sub_early", "topic_delete_races_create_channel":
 		vfE5ReplayTopicDeleteSub(t, name)
 	case "f9_pump_holds":
@@ -1218,8 +1220,20 @@ func vfE5ReplayDoubleDelete(t *testing.T, name string) {
 	conn.Write([]byte("  V2"))
 	conn.Write([]byte("SUB tz c\n"))
 	fb, _ := vfE5Frames(conn, 300*time.Millisecond)
-	acked := t2.PutMessage(NewMessage(t2.GenerateID(), []byte("m1"))) == nil
-	time.Sleep(50 * time.Millisecond)
+	// a disk backlog of several messages on the fresh topic (mem-queue-size 0: every message goes through the
+	// topic's and the channel's disk queue, whose file names are those of the object still being deleted)
+	const backlog = 4
+	ackedN := 0
+	for i := 0; i < backlog; i++ {
+		if t2.PutMessage(NewMessage(t2.GenerateID(), []byte(fmt.Sprintf("m%d", i+1)))) == nil {
+			ackedN++
+		}
+	}
+	acked := ackedN > 0
+	c2, _ := t2.GetExistingChannel("c")
+	for d := time.Now().Add(2 * time.Second); fresh && c2 != nil && c2.Depth() < int64(ackedN) && time.Now().Before(d); {
+		time.Sleep(time.Millisecond)
+	}
 	close(g.release)
 	r1 := <-d1
 	time.Sleep(50 * time.Millisecond)
@@ -1233,7 +1247,172 @@ func vfE5ReplayDoubleDelete(t *testing.T, name string) {
 			got = true
 		}
 	}
-	wrong := fresh && d2err == nil && (!stillMapped || (acked && !got))
-	fmt.Printf("E5REPLAY %s d1=%s d2=%s d2_err=%v fresh_topic=%v b_sub=%s acked=%v fresh_still_in_map=%v fresh_exiting=%v b_closed=%v b_got_message=%v older_delete_hit_fresh_topic=%v\n",
-		name, r1, d2, d2err != nil, fresh, strings.Join(fb, ","), acked, stillMapped, t2.Exiting(), closed, got, wrong)
+	// what the older deletion did to the files of the fresh topic: every acknowledged message of the fresh
+	// topic must survive a graceful restart (it was never deleted)
+	filesNow := 0
+	ents, _ := os.ReadDir(dir)
+	for _, e := range ents {
+		if strings.HasPrefix(e.Name(), "tz.diskqueue") || strings.HasPrefix(e.Name(), "tz:c.diskqueue") {
+			filesNow++
+		}
+	}
+	depthAfter := int64(-2)
+	freshExiting := t2.Exiting()
+	if fresh && stillMapped {
+		conn.Close()
+		n.Exit()
+		n2 := vfE5Restart(t, opts, dir)
+		depthAfter = vfE5TotalDepth(n2, "tz", "c")
+		n2.Exit()
+	}
+	lostBacklog := fresh && stillMapped && depthAfter != int64(ackedN)
+	wrong := fresh && d2err == nil && (!stillMapped || (acked && !got) || lostBacklog)
+	fmt.Printf("E5REPLAY %s d1=%s d2=%s d2_err=%v fresh_topic=%v b_sub=%s acked=%v acked_n=%d fresh_still_in_map=%v fresh_exiting=%v b_closed=%v b_got_message=%v fresh_files=%d depth_after_restart=%d fresh_backlog_lost=%v older_delete_hit_fresh_topic=%v\n",
+		name, r1, d2, d2err != nil, fresh, strings.Join(fb, ","), acked, ackedN, stillMapped, freshExiting, closed, got, filesNow, depthAfter, lostBacklog, wrong)
+}
+
+// ---- round 7: channel-deletion race model (lean/Nsq/Model/ChanDelete.lean) ----
+
+func vfE5Dial(t *testing.T, n *NSQD) net.Conn {
+	conn, err := net.DialTimeout("tcp", n.RealTCPAddr().String(), 2*time.Second)
+	if err != nil {
+		t.Fatal(err)
+	}
+	conn.Write([]byte("  V2"))
+	return conn
+}
+
+func vfE5CountMsgs(frames []string) int {
+	k := 0
+	for _, f := range frames {
+		if f == "m" {
+			k++
+		}
+	}
+	return k
+}
+
+// Two deletions of one channel with a re-creation in between (Props.C08ChanDelete.witnessChanDouble).
+//   chan_double_delete_unlinks_fresh: consumer A is subscribed to tz:c.  D1 = DeleteExistingChannel("c")
+//     is parked at chan.delete.beforeUnlink (channel.Delete() has finished: A closed, queue emptied, files
+//     removed; the dead object is still in channelMap).  D2 = a second DeleteExistingChannel("c") (HTTP delete,
+//     or the ephemeral channel's deleteCallback): its channel.Delete() returns "exiting" (ignored), it
+//     unlinks the name, persists and answers nil.  GetChannel("c") now creates a fresh object; consumer B
+//     subscribes to it and a message is published and fanned out to it.  D1 continues and unlinks *the
+//     name*.  Property: a channel created after a completed deletion is not touched by an older deletion
+//     (it stays in the map, keeps receiving what is published, is listed in the metadata).
+//   chan_double_delete_waits: D1 is parked at chan.delete.afterNotify (inside Channel.exit, holding
+//     exitMutex).  A second deletion must not come back before D1's exit has finished (its Delete() waits
+//     for the exit lock), GetChannel returns the exiting object (no re-creation), a SUB is refused.  This is
+//     the enabling condition of the model's `loserUnlink` step; the leg must be clean on every tree.
+func vfE5ReplayChanDoubleDelete(t *testing.T, name string) {
+	dir := t.TempDir()
+	opts := vfE5Opts(dir)
+	opts.MemQueueSize = 0
+	n, err := New(opts)
+	if err != nil {
+		t.Fatal(err)
+	}
+	n.LoadMetadata()
+	n.PersistMetadata()
+	go n.Main()
+	defer n.Exit()
+	topic := n.GetTopic("tz")
+	topic.GetChannel("keep") // the topic keeps a second channel: its pump stays active whatever happens to c
+	c1 := topic.GetChannel("c")
+	a := vfE5Dial(t, n)
+	defer a.Close()
+	a.Write([]byte("SUB tz c\n"))
+	fa, _ := vfE5Frames(a, 300*time.Millisecond)
+
+	if name == "chan_double_delete_waits" {
+		g := vfE5NewGate("chan.delete.afterNotify")
+		d1 := make(chan string, 1)
+		go func() { d1 <- vfE5Try(20*time.Second, func() { topic.DeleteExistingChannel("c") }) }()
+		g.wait(t)
+		d2 := make(chan string, 1)
+		go func() { d2 <- vfE5Try(20*time.Second, func() { topic.DeleteExistingChannel("c") }) }()
+		early := false
+		select {
+		case <-d2:
+			early = true
+		case <-time.After(300 * time.Millisecond):
+		}
+		got := topic.GetChannel("c")
+		recreated := got != c1
+		b := vfE5Dial(t, n)
+		defer b.Close()
+		b.Write([]byte("SUB tz c\n"))
+		fb, bClosed := vfE5Frames(b, 500*time.Millisecond)
+		bAns := strings.Join(fb, ",")
+		if bClosed {
+			bAns += "+closed"
+		}
+		if bAns == "" {
+			bAns = "none"
+		}
+		close(g.release)
+		r1 := <-d1
+		r2 := "early"
+		if !early {
+			r2 = <-d2
+		}
+		time.Sleep(50 * time.Millisecond)
+		_, aClosed := vfE5Frames(a, 300*time.Millisecond)
+		// B's AddClient waited for exitMutex too: it is answered only now
+		fb2, bClosed2 := vfE5Frames(b, 400*time.Millisecond)
+		bAns += "/" + strings.Join(fb2, ",")
+		if bClosed2 {
+			bAns += "+closed"
+		}
+		_, gerr := topic.GetExistingChannel("c")
+		files := 0
+		ents, _ := os.ReadDir(dir)
+		for _, e := range ents {
+			if strings.HasPrefix(e.Name(), "tz:c.") {
+				files++
+			}
+		}
+		wrong := early || recreated || strings.Contains(bAns, "r:OK") || !aClosed || gerr == nil || files != 0
+		fmt.Printf("E5REPLAY %s a_sub=%s d1=%s d2=%s d2_returned_before_d1_exit=%v recreated_during_delete=%v b_sub=%s a_closed=%v in_map_after=%v files_left=%d wrong=%v\n",
+			name, strings.Join(fa, ","), r1, r2, early, recreated, bAns, aClosed, gerr == nil, files, wrong)
+		return
+	}
+
+	g := vfE5NewGate("chan.delete.beforeUnlink")
+	d1 := make(chan string, 1)
+	go func() { d1 <- vfE5Try(20*time.Second, func() { topic.DeleteExistingChannel("c") }) }()
+	g.wait(t)
+	_, aClosed := vfE5Frames(a, 300*time.Millisecond)
+	var d2err error
+	d2 := vfE5Try(5*time.Second, func() { d2err = topic.DeleteExistingChannel("c") })
+	c2 := topic.GetChannel("c")
+	fresh := c2 != c1 && !c2.Exiting()
+	b := vfE5Dial(t, n)
+	defer b.Close()
+	b.Write([]byte("SUB tz c\n"))
+	fb, _ := vfE5Frames(b, 300*time.Millisecond)
+	acked := 0
+	if topic.PutMessage(NewMessage(topic.GenerateID(), []byte("m1"))) == nil {
+		acked++
+	}
+	for d := time.Now().Add(2 * time.Second); fresh && c2.Depth() < 1 && time.Now().Before(d); {
+		time.Sleep(time.Millisecond)
+	}
+	close(g.release)
+	r1 := <-d1
+	time.Sleep(50 * time.Millisecond)
+	cur, gerr := topic.GetExistingChannel("c")
+	stillMapped := gerr == nil && cur == c2
+	if topic.PutMessage(NewMessage(topic.GenerateID(), []byte("m2"))) == nil {
+		acked++
+	}
+	b.Write([]byte("RDY 2\n"))
+	fm, bClosed := vfE5Frames(b, 700*time.Millisecond)
+	got := vfE5CountMsgs(fm)
+	meta, _ := os.ReadFile(dir + "/nsqd.dat")
+	listed := strings.Contains(string(meta), `"name":"c"`)
+	wrong := fresh && d2err == nil && (!stillMapped || got < acked || !listed)
+	fmt.Printf("E5REPLAY %s a_sub=%s a_closed=%v d1=%s d2=%s d2_err=%v fresh_channel=%v b_sub=%s acked=%d fresh_still_in_map=%v fresh_exiting=%v b_closed=%v b_got_messages=%d listed_in_metadata=%v older_delete_hit_fresh_channel=%v\n",
+		name, strings.Join(fa, ","), aClosed, r1, d2, d2err != nil, fresh, strings.Join(fb, ","), acked, stillMapped, c2.Exiting(), bClosed, got, listed, wrong)
 }
